@@ -13,6 +13,7 @@ import copy
 import re
 
 from .report import Unsupported
+from .tystr import subst_type, unify_type, impl_self_pattern, type_head
 
 
 _BRANCH = re.compile(r"^Branch\(\[(.*)\]\): (?:&'?\w* ?)?str$")
@@ -136,11 +137,12 @@ class PyIter(object):
 
 
 class Closure(object):
-    __slots__ = ("path", "env", "machine")
+    __slots__ = ("path", "env", "machine", "tyenv")
 
-    def __init__(self, path, env):
+    def __init__(self, path, env, tyenv=None):
         self.path = path
         self.env = env
+        self.tyenv = tyenv
 
     def __repr__(self):
         return "closure<%s>" % self.path
@@ -277,6 +279,7 @@ class Machine(object):
         self.max_steps = 5_000_000
         self.cur_call_ty = None
         self.constenv = [{}]
+        self.tyenv = [{}]        # generic type parameter name -> concrete type (per frame)
         self.fork_logic = False  # symbolic && / || : fork instead of building a term
         self.vec_seed = None     # function(type string of a new Vec) -> initial items | None
 
@@ -328,6 +331,7 @@ class Machine(object):
             if len(names) == len(vals):
                 for nme, v in zip(names, vals):
                     cenv[nme] = self.const_arg(v)
+        tenv = self.bind_generics(path, fn, callee)
         params = th["params"]
         if len(params) != len(args):
             raise Unsupported("arity mismatch calling %s (%d params, %d args)" % (path, len(params), len(args)))
@@ -337,6 +341,7 @@ class Machine(object):
             if not self.match(p["pat"], a, env):
                 raise Unsupported("parameter pattern did not match in %s" % path)
         self.constenv.append(cenv)
+        self.tyenv.append(tenv)
         self.depth += 1
         try:
             try:
@@ -346,6 +351,62 @@ class Machine(object):
         finally:
             self.depth -= 1
             self.constenv.pop()
+            self.tyenv.pop()
+
+    # ---- generic type parameters ---------------------------------------------
+    def subst_callee(self, callee):
+        env = self.tyenv[-1]
+        if not env:
+            return callee
+        c = dict(callee)
+        if c.get("targs"):
+            c["targs"] = [subst_type(t, env) for t in c["targs"]]
+        if c.get("self_ty"):
+            c["self_ty"] = subst_type(c["self_ty"], env)
+        return c
+
+    def bind_generics(self, path, fn, callee):
+        """type parameter environment of the callee frame (callee already substituted)"""
+        if fn is None or not fn.get("generics") or callee is None:
+            return {}
+        gens = fn["generics"]
+        env = {}
+        targs = callee.get("targs") or []
+        if callee.get("def") == path and len(targs) == len(gens):
+            env = dict(zip(gens, targs))
+        elif callee.get("default_for"):
+            env = {"Self": callee["default_for"]}
+        else:
+            pat = impl_self_pattern(callee.get("resolved_container") or "")
+            st = callee.get("self_ty")
+            if pat and st:
+                unify_type(pat, st, set(gens), env)
+            # method-level generics of a trait method: the trailing type arguments
+            rem = [g for g in gens if g not in env]
+            if rem and len(targs) > len(rem):
+                env.update(zip(rem, targs[-len(rem):]))
+        return {k: v for k, v in env.items() if v != k and v not in gens}
+
+    def resolve_trait_call(self, callee):
+        """an unresolved trait method whose Self type became concrete through the type environment"""
+        tr, name, st = callee.get("trait"), callee.get("name"), callee.get("self_ty")
+        if not (tr and name and st) or callee.get("resolved"):
+            return None
+        head = type_head(st)
+        for imp in self.facts.impls_of(trait=tr, self_adt=head):
+            for it in imp["items"]:
+                if it["name"] == name:
+                    c = dict(callee)
+                    c["resolved"] = it["path"]
+                    c["resolved_container"] = "<impl %s for %s>" % (tr, imp.get("self_ty") or head)
+                    return c
+            d = callee.get("def")
+            if d in self.facts.bodies and self.facts.bodies[d].get("thir"):
+                c = dict(callee)
+                c["resolved"] = d
+                c["default_for"] = st
+                return c
+        return None
 
     def const_arg(self, text):
         """value of a const generic argument as printed by rustc (`20`, `MAX`, `0_usize`)"""
@@ -384,6 +445,7 @@ class Machine(object):
                 if p["pat"] is not None and not self.match(p["pat"], a, cenv):
                     raise Unsupported("closure parameter pattern mismatch %s" % f.path, where)
             self.depth += 1
+            self.tyenv.append(f.tyenv if f.tyenv is not None else self.tyenv[-1])
             try:
                 try:
                     return self.eval(th["body"], cenv)
@@ -391,6 +453,7 @@ class Machine(object):
                     return r.v
             finally:
                 self.depth -= 1
+                self.tyenv.pop()
         if isinstance(f, FnRef):
             return self.call_callee(f.callee, args, where)
         if isinstance(f, Term):
@@ -400,6 +463,11 @@ class Machine(object):
     def call_callee(self, callee, args, where=""):
         from . import builtins
         builtins._CUR_MACHINE[0] = self
+        if self.tyenv[-1]:
+            callee = self.subst_callee(callee)
+            rc = self.resolve_trait_call(callee)
+            if rc is not None:
+                callee = rc
         d = callee.get("def")
         r = callee.get("resolved")
         for p in (r, d):
@@ -731,6 +799,8 @@ class Machine(object):
                     return var["index"]
         if isinstance(v, str) and tys in INT_RANGES and len(v) == 1:
             return ord(v)
+        if isinstance(v, int) and tys == "char" and 0 <= v < 256:
+            return chr(v)
         raise Unsupported("cast of %r to %s" % (v, tys), e.get("sp", ""))
 
     def e_if(self, e, env):
@@ -956,15 +1026,27 @@ class Machine(object):
 
     def e_zst(self, e, env):
         if "callee" in e:
-            return FnRef(e["callee"])
+            return FnRef(self.subst_callee(e["callee"]))
         return ()
 
     def e_closure(self, e, env):
-        return Closure(e["def"], env)
+        return Closure(e["def"], env, self.tyenv[-1])
 
     def e_const(self, e, env):
         from . import builtins
         c = e["callee"]
+        if self.tyenv[-1]:
+            c = self.subst_callee(c)
+            rc = self.resolve_trait_call(c)
+            if rc is not None:
+                c = rc
+                cv = self.facts.consts.get(c["resolved"])
+                if cv is not None and cv.get("value") and not self.uninterpreted(c["resolved"], c):
+                    from . import constval
+                    try:
+                        return dcopy(constval.parse(cv["value"]))
+                    except constval.ParseError:
+                        pass
         if "value" in e and not self.uninterpreted(c.get("def"), c):
             from . import constval
             key = e["value"]
